@@ -361,12 +361,13 @@ Proof.
   - destruct (Hrel _ _ Ew) as (o & _). congruence.
 Qed.
 
-Lemma progress_lemma s i xi v : reachable tr n z s -> 2 <= n -> released s -> get s i = Some xi ->
+Lemma progress_majority_lemma s i xi v Q : reachable tr n z s -> released s -> get s i = Some xi ->
   (forall j y, get s j = Some y -> n_ver y <= n_ver xi) ->
+  NoDup Q -> (forall j, In j Q -> j < n /\ j <> i) -> required n <= List.length Q ->
   exists es' s', run (cfg tr) s es' = Some s' /\
-    forall j y, get s' j = Some y -> n_ver y = n_ver xi + 1 /\ n_old y = v.
+    forall j y, j = i \/ In j Q -> get s' j = Some y -> n_ver y = n_ver xi + 1 /\ n_old y = v.
 Proof.
-  intros Hr Hn Hrel Hx Hmax.
+  intros Hr Hrel Hx Hmax HQnd HQ HQlen.
   pose proof (reachable_nnodes s Hr) as Hnn.
   pose proof (get_lt _ _ _ Hx) as Hi. rewrite Hnn in Hi.
   destruct (Hrel i xi Hx) as (r1 & r2 & r3 & r4 & r5).
@@ -404,9 +405,9 @@ Proof.
   { unfold lookup_req, s4. rewrite reqs_of_app. cbn [f_sent eff_send filter r_from m mk_pre]. rewrite Nat.eqb_refl.
     unfold s3, s2, s1. rewrite !reqs_of_app. cbn [f_sent eff_node filter]. rewrite !app_nil_r. apply nth_error_snoc. }
   (* 5. all other replicas vote *)
-  destruct (phase_votes i q m k eq_refl eq_refl eq_refl (others i) s4 x4 [] R4 L4 G4 eq_refl (others_nodup i))
+  destruct (phase_votes i q m k eq_refl eq_refl eq_refl Q s4 x4 [] R4 L4 G4 eq_refl HQnd)
     as (es5 & s5 & x5 & Run5 & R5 & L5 & G5 & O5 & C5 & Sent5 & V5 & F5).
-  { intros j Hj. apply others_spec in Hj as (Hjn & Hji). split; auto. split; [intros []|].
+  { intros j Hj. apply HQ in Hj as (Hjn & Hji). split; auto. split; [intros []|].
     destruct (nth_error (g_nodes s) j) as [xj|] eqn:Ej; [|apply nth_error_None in Ej; unfold nnodes in Hnn; lia].
     exists xj. rewrite F4 by auto. split; auto.
     destruct (Hrel j xj Ej) as (q1 & q2 & q3 & q4 & q5).
@@ -415,12 +416,12 @@ Proof.
     unfold k. apply (released_promise s i xi j xj Hr Hrel Hx Hmax Ej). }
   destruct C5 as (c1 & c2 & c3 & c4 & c5 & c6 & c7 & c8).
   (* 6. the pre-commit succeeds *)
-  assert (Len : List.length (rev (others i) ++ []) = n - 1) by (rewrite app_nil_r, rev_length; apply others_length; auto).
+  assert (Len : List.length (rev Q ++ []) = List.length Q) by (rewrite app_nil_r, rev_length; reflexivity).
   set (x6 := set_preok true (set_op OpNone (set_cs HasPre (set_att 0 x5)))).
   set (s6 := apply_eff s5 (mkEff (Some (i, x6)) [] [] [] [m] 0 false)).
   assert (S6 : step (cfg tr) s5 (EPreFinish i 0) = Some s6).
-  { apply (step_prefinish_ok s5 i x5 m (rev (others i) ++ [])); auto; try (rewrite c4; reflexivity).
-    - rewrite (reachable_nnodes s5 R5), Len. apply required_le; auto.
+  { apply (step_prefinish_ok s5 i x5 m (rev Q ++ [])); auto; try (rewrite c4; reflexivity).
+    - rewrite (reachable_nnodes s5 R5), Len. auto.
     - rewrite c6. cbn. apply (released_promise s i xi i xi Hr Hrel Hx Hmax Hx). }
   assert (G6 : get s6 i = Some x6) by (apply get_apply_same; [reflexivity|eapply get_lt; eauto]).
   (* 7. Commit is called *)
@@ -444,30 +445,49 @@ Proof.
     rewrite <- Hq. apply nth_error_snoc. }
   assert (Vk : n_ver x6 + 1 = k) by (cbn; rewrite c3; reflexivity).
   (* 8. all other replicas install the value *)
-  destruct (phase_commits i (S q) c k v (n_ver x6) eq_refl eq_refl Vk (eq_trans c1 eq_refl) (others i) s7 x7 [] R7 L7 G7 eq_refl eq_refl (others_nodup i))
+  destruct (phase_commits i (S q) c k v (n_ver x6) eq_refl eq_refl Vk (eq_trans c1 eq_refl) Q s7 x7 [] R7 L7 G7 eq_refl eq_refl HQnd)
     as (es8 & s8 & x8 & Run8 & R8 & L8 & G8 & O8 & C8 & V8 & F8).
-  { intros j Hj. split; [apply others_spec in Hj; tauto|]. split; [intros []|].
-    destruct (V5 j Hj) as (xj & g1 & g2). exists xj. rewrite F7 by (apply others_spec in Hj; tauto). auto. }
+  { intros j Hj. split; [apply HQ in Hj; tauto|]. split; [intros []|].
+    destruct (V5 j Hj) as (xj & g1 & g2). exists xj. rewrite F7 by (apply HQ in Hj; tauto). auto. }
   destruct C8 as (d1 & d2 & d3 & d4 & d5 & d6 & d7 & d8).
   (* 9. the commit completes *)
   set (x9 := set_install (n_ver x8 + 1) (n_val x8) (n_vptr x8) (set_preok false (set_op OpNone (set_cs NotCS x8)))).
   set (s9 := apply_eff s8 (mkEff (Some (i, x9)) [] [] [(i, n_ver x8 + 1, n_val x8)] [] 0 false)).
   assert (S9 : step (cfg tr) s8 (ECommitFinish i) = Some s9).
-  { apply (step_commitfinish s8 i x8 c (rev (others i) ++ [])).
+  { apply (step_commitfinish s8 i x8 c (rev Q ++ [])).
     - auto.
     - rewrite O8, d3. reflexivity.
-    - rewrite (reachable_nnodes s8 R8), Len. apply required_le; auto. }
+    - rewrite (reachable_nnodes s8 R8), Len. auto. }
   exists ([EAbort i 0; EWrite i v; EPreCall i; EPreWake i t] ++ es5 ++ [EPreFinish i 0; ECommit i t2] ++ es8 ++ [ECommitFinish i]), s9.
   split.
   { cbn [app run]. rewrite S1, S2, S3, S4. rewrite run_app, Run5. cbn [app run]. rewrite S6, S7.
     rewrite run_app, Run8. cbn [run]. rewrite S9. reflexivity. }
-  intros j y Hy. destruct (Nat.eq_dec j i) as [->|Hji].
+  intros j y Hj Hy. destruct (Nat.eq_dec j i) as [->|Hji].
   - assert (G9 : get s9 i = Some x9) by (apply get_apply_same; [reflexivity|eapply get_lt; eauto]).
     rewrite G9 in Hy. inversion Hy; subst y. cbn. rewrite d3, d1. cbn. rewrite c3, c1. cbn. auto.
-  - unfold s9 in Hy. rewrite (get_apply_other _ _ i x9) in Hy by (cbn; auto).
-    assert (Hjn : j < n). { rewrite <- (reachable_nnodes s8 R8). eapply get_lt; eauto. }
-    destruct (V8 j (proj2 (others_spec i j) (conj Hjn Hji))) as (xj & g1 & g2 & g3).
+  - destruct Hj as [->|Hj]; [congruence|].
+    unfold s9 in Hy. rewrite (get_apply_other _ _ i x9) in Hy by (cbn; auto).
+    destruct (V8 j Hj) as (xj & g1 & g2 & g3).
     assert (y = xj) by congruence. subst. auto.
+Qed.
+
+(* all replicas reachable: everybody installs the new value *)
+Lemma progress_lemma s i xi v : reachable tr n z s -> 2 <= n -> released s -> get s i = Some xi ->
+  (forall j y, get s j = Some y -> n_ver y <= n_ver xi) ->
+  exists es' s', run (cfg tr) s es' = Some s' /\
+    forall j y, get s' j = Some y -> n_ver y = n_ver xi + 1 /\ n_old y = v.
+Proof.
+  intros Hr Hn Hrel Hx Hmax.
+  pose proof (reachable_nnodes s Hr) as Hnn.
+  pose proof (get_lt _ _ _ Hx) as Hi. rewrite Hnn in Hi.
+  destruct (progress_majority_lemma s i xi v (others i) Hr Hrel Hx Hmax (others_nodup i)) as (es & s' & Hrun & Hall).
+  - intros j Hj. apply others_spec; auto.
+  - rewrite others_length by auto. apply required_le; auto.
+  - exists es, s'. split; auto. intros j y Hy. apply (Hall j y); auto.
+    destruct (Nat.eq_dec j i); auto. right. apply others_spec. split; auto.
+    assert (Hs' : reachable tr n z s').
+    { destruct Hr as (es0 & H0). exists (es0 ++ es). rewrite run_app, H0. auto. }
+    rewrite <- (reachable_nnodes s' Hs'). eapply get_lt; eauto.
 Qed.
 
 End Progress.
